@@ -45,7 +45,7 @@ ASSUMPTIONS = [
   "mismatching pixels whose ray passes within 1.5 bounding radii of a sphere / capsule / cylinder / ellipsoid whose smallest size parameter is below 5e-3 x its distance from the camera are all reported under the one signature raygeom:float32-cancellation[min size<5e-3*distance] (float32 discriminant of the quadratic ray formulas), whatever their appearance (hole, phantom, wrong depth)",
   "per-world Model variants batch geom_size, geom_dataid, geom_pos, geom_quat, geom_rbound only; a world whose MJWarp geom frames differ from its per-world reference model is not judged",
 ]
-BUDGET = {"quick": 150, "thorough": 1500}
+BUDGET = {"quick": 300, "thorough": 1500}
 
 TIE = 1e-4
 A_DIST = 1e-4
